@@ -65,7 +65,7 @@ def one(job):
             err = apply_edits(d, payload)
             if err:
                 return (kind, name, prop, "BROKEN-VARIANT", err)
-        else:  # seeded patch
+        else:  # a patch file: a seeded change, or a behaviour-preserving change from /verif/benign ("benign-patch")
             # generated .c files are not part of the scratch copy (the checks read .py / .pyx only)
             r = subprocess.run(["git", "apply", "--exclude=*.c", "-p1", payload], cwd=d, capture_output=True, text=True,
                                env=dict(os.environ, GIT_CEILING_DIRECTORIES="/tmp", GIT_DIR="/nonexistent"))
